@@ -128,6 +128,8 @@ class Config:
         return SP, CF
 
     def sp_lookup(self, dev_index):
+        if not hasattr(self, "_spcf"):
+            self._spcf = self.sp_cf()
         SP, _ = self._spcf
         def f(cid, amp, don, doff):
             for k, r in enumerate(SP[dev_index - 1][cid - 1], 1):
@@ -137,7 +139,8 @@ class Config:
         return f
 
     def gen_module(self, name="MC_gen", root="PulserSeqMC"):
-        self._spcf = self.sp_cf()
+        if not hasattr(self, "_spcf"):
+            self._spcf = self.sp_cf()
         SP, CF = self._spcf
         defs = {
             "G_Devs": self.dev_records(),
@@ -209,4 +212,21 @@ def core(depth=3):
     return Config("core", _core_devs(), pulses, calls, init, depth)
 
 
-CONFIGS = {"core": core}
+def instances(name, tier):
+    """The configurations of family `name` for a tier (each with a unique .name tag)."""
+    quick = tier != "thorough"
+    if name == "core":
+        c = core(3 if quick else 4)
+        c.name = f"core-d{c.max_depth}"
+        return [c]
+    raise KeyError(name)
+
+
+def by_tag(tag):
+    fam, _, d = tag.rpartition("-d")
+    for tier in ("quick", "thorough"):
+        for c in instances(fam, tier):
+            if c.name == tag:
+                return c
+    raise KeyError(tag)
+
